@@ -1531,13 +1531,16 @@ class Qube(object):
         given = deriv
         deriv = deriv.wod.as_float()
 
-        # Match readonly of parent if necessary
+        # Broadcast to the shape of the parent
+        if deriv._shape_ != self._shape_:
+            deriv = deriv.broadcast_to(self._shape_)
+
+        # Match readonly of parent if necessary (after the broadcast, which
+        # returns a new writable object when the parent's shape is ())
         if self._readonly_ and not deriv._readonly_:
             deriv = deriv.clone(recursive=False).as_readonly()
 
         # Save in the derivative dictionary and as an attribute
-        if deriv._shape_ != self._shape_:
-            deriv = deriv.broadcast_to(self._shape_)
 
         # If this is still the object given (or its cached "wod"), hold a
         # separate shallow copy, so that a later in-place change to that object
